@@ -682,6 +682,25 @@ export function gen(rng, params, mode) {
     p[2] = [p[2][0]]; // one export
     // a type called K used twice (so that it is printed as a declaration), once as the value type of a record
     if (p[1].some((d) => d[1] === "K" && d[2].length === 0) && rng.chance(1, 2)) p[2] = [["E0", [A("obj"), [["a", A("false"), [A("ref"), "K"]], ["r", A("false"), rng.pick([[A("bi"), "Record", A("string"), [A("ref"), "K"]], [A("obj"), [], [A("string"), [A("ref"), "K"]]], [A("bi"), "Record", [A("tpl"), [A("lit"), "x_"], A("str")], [A("ref"), "K"]]])]], A("none")]]];
+    if (rng.chance(1, 12)) {
+      // chains of registered string / number formats (`StringFormatExtends<…>`), two to four links, written through aliases or in
+      // place: the printed text nests them in place (formats are outside the Lean compiler model: not tied, marker `bi "StringFormat"`)
+      const L = (v) => [A("lit"), [A("s"), v]];
+      const num = rng.chance(1, 4);
+      const names = num ? ["n2", "n3"] : rng.pick([["fa", "fb", "fab"], ["fa", "fab"], ["fb", "fa", "fab", "fa"]]);
+      const base = num ? "NumberFormat" : "StringFormat", ext = num ? "NumberFormatExtends" : "StringFormatExtends";
+      const decls = []; let cur = null; const chain = [];
+      names.forEach((f, i) => {
+        const t = i === 0 ? [A("bi"), base, L(f)] : [A("bi"), ext, cur, L(f)];
+        if (rng.chance(2, 3)) { decls.push([A("alias"), "F" + i, [], t]); cur = [A("ref"), "F" + i]; } else cur = t;
+        chain.push(cur);
+      });
+      const p2 = [A("prog"), decls, [["E0", rng.chance(1, 2) ? cur : [A("obj"), chain.map((t, i) => ["k" + i, A("false"), t]), A("none")]]]];
+      const strs = ["a", "b", "ab", "ba", "abb", "xaby", "", "c"], nums = [0, 2, 3, 4, 6, 12, 1.5];
+      const pool = num ? nums : strs;
+      const vals = head(p2[2][0][1]) === "obj" ? Array.from({ length: 10 }, () => Object.fromEntries(chain.map((_, i) => ["k" + i, rng.pick(pool)]))) : [...pool, null, 1, "ab"];
+      return [A("describe"), A(String(counter++)), p2, [["entry.ts", tsOfProg(p2)]], vals.map(encVal)];
+    }
     const vals = genValues(rng, p, Number(params[0] || 12));
     return [A("describe"), A(String(counter++)), p, [["entry.ts", tsOfProg(p)]], vals.map(encVal)];
   }
@@ -761,13 +780,15 @@ export async function loadEmitted(build, code, stringFormats = [], numberFormats
   fs.writeFileSync(f, text);
   try { return (await import(pathToFileURL(f).href)).default; } finally { fs.rmSync(f, { force: true }); }
 }
+// the custom formats of the harness (the same conventions as mode_rt.mjs registerFormats)
+const HARNESS_FORMATS = { stringFormats: { fa: (s) => s.includes("a"), fb: (s) => s.includes("b"), fab: (s) => s.includes("ab") }, numberFormats: { n2: (n) => Number.isInteger(n) && Math.abs(n) < 1e15 && n % 2 === 0, n3: (n) => Number.isInteger(n) && Math.abs(n) < 1e15 && n % 3 === 0 } };
 export const asyncRunner = true;
 export function makeRunner(rt_, mode, build) {
   async function evalOne(exports, valsSx, compiled) {
     const h = head(compiled);
     if (h !== "js") return { reply: [A(h)], fail: h === "diags" ? [] : [A("c04." + h)] };
     let parsers;
-    try { parsers = (await loadEmitted(build, compiled[1])).buildParsers({ stringFormats: {}, numberFormats: {} }); } catch (e) { return { reply: [A("load-error"), String(e && e.message).slice(0, 200)], fail: [A("c04.load")] }; }
+    try { parsers = (await loadEmitted(build, compiled[1])).buildParsers(HARNESS_FORMATS); } catch (e) { return { reply: [A("load-error"), String(e && e.message).slice(0, 200)], fail: [A("c04.load")] }; }
     const vals = valsSx.map(decVal);
     const out = [A("bits")], fail = [], h256 = {}, h32 = {};
     for (const [name] of exports) {
@@ -788,7 +809,7 @@ export function makeRunner(rt_, mode, build) {
       if (h === "js") {
         // the export names requested in buildParsers (when the TsCore program is known) must all be built
         let parsers = null;
-        try { parsers = (await loadEmitted(build, compiled[1])).buildParsers({ stringFormats: {}, numberFormats: {} }); } catch (e) { fail.push(A("c04.load")); }
+        try { parsers = (await loadEmitted(build, compiled[1])).buildParsers(HARNESS_FORMATS); } catch (e) { fail.push(A("c04.load")); }
         if (parsers && Array.isArray(req[2])) for (const [name] of req[2][2]) if (!parsers[name]) fail.push(A("c04.missing-parser"));
         // (projects written as text carry the requested names in a marker comment)
         const marker = /^\/\*names:([^*]*)\*\//.exec((files.find(([n]) => n === "entry.ts") || ["", ""])[1]);
@@ -819,7 +840,7 @@ export function makeRunner(rt_, mode, build) {
       const name = req[2][2][0][0];
       if (head(compiled) !== "js") return [[A(head(compiled))], [A("oracle"), A(head(compiled) === "diags" ? "ok" : "fail"), ...(head(compiled) === "diags" ? [] : [A("c04." + head(compiled))])]];
       let parsers;
-      try { parsers = (await loadEmitted(build, compiled[1])).buildParsers({}); } catch (e) { return [[A("load-error")], [A("oracle"), A("fail"), A("c04.load")]]; }
+      try { parsers = (await loadEmitted(build, compiled[1])).buildParsers(HARNESS_FORMATS); } catch (e) { return [[A("load-error")], [A("oracle"), A("fail"), A("c04.load")]]; }
       let text;
       try { text = parsers[name].describe(); } catch (e) { return [[A("describe-throws"), String(e && e.message).slice(0, 100)], [A("oracle"), A("fail"), A("c15.throws")]]; }
       if (compiled2 == null) return [[A("described"), text], [A("oracle"), A("ok")]];
@@ -828,7 +849,7 @@ export function makeRunner(rt_, mode, build) {
       if (new Set(names).size !== names.length) fail.push(A("c15.once"));
       if (head(compiled2) !== "js") { fail.push(A("c15.compile")); return [[A("described"), text], [A("oracle"), A("fail"), ...fail]]; }
       let p2;
-      try { p2 = (await loadEmitted(build, compiled2[1])).buildParsers({}); } catch (e) { return [[A("described"), text], [A("oracle"), A("fail"), A("c15.load")]]; }
+      try { p2 = (await loadEmitted(build, compiled2[1])).buildParsers(HARNESS_FORMATS); } catch (e) { return [[A("described"), text], [A("oracle"), A("fail"), A("c15.load")]]; }
       const a = parsers[name], b = p2[name];
       const vals = req[4].map(decVal);
       for (const v of vals) { let x, y; try { x = a.validate(v); y = b.validate(v); } catch (e) { fail.push(A("c03.throw")); break; } if (x !== y) { fail.push(A("c15.validate")); break; } }
@@ -865,7 +886,7 @@ export function makeRunner(rt_, mode, build) {
     let mod;
     try { mod = await loadEmitted(build, compiled[1]); } catch (e) { return [[A("load-error"), String(e && e.message).slice(0, 200)], [A("oracle"), A("fail"), A("c04.load")]]; }
     let parsers;
-    try { parsers = mod.buildParsers({ stringFormats: {}, numberFormats: {} }); } catch (e) { return [[A("load-error"), String(e && e.message).slice(0, 200)], [A("oracle"), A("fail"), A("c04.load")]]; }
+    try { parsers = mod.buildParsers(HARNESS_FORMATS); } catch (e) { return [[A("load-error"), String(e && e.message).slice(0, 200)], [A("oracle"), A("fail"), A("c04.load")]]; }
     const vals = req[4].map(decVal);
     if (mode === "prog-schema") {
       // C02 on COMPILED validators: flat schema() and schemaWithContext() + exportDefinitions() of the first export, with the
